@@ -4,7 +4,7 @@ import sys
 from .. import core, addsweep
 from ..oracle import cal, dur
 
-CALS = ["ymd", "ywd", "yd", "ymcw", "bizda", "ldn", "mdn"]
+CALS = ["ymd", "ywd", "yd", "ymcw", "bizda", "ldn", "mdn", "epoch"]
 DAYS_N = [1, 2, 6, 7, 8, 27, 28, 29, 30, 31, 32, 59, 60, 365, 366, 367, 1461, 36524, 36525, 146097]
 WEEKS_N = [1, 4, 5, 52, 53, 5218]
 
@@ -15,6 +15,10 @@ def mkpairs(K, ords, delta, ctx):
         t = o + delta
         if not dur.in_range(t):
             ctx.skip("result-out-of-range")
+            continue
+        if K == "epoch" and (max(o, t) > cal.ORD_MAX - 606 or o == cal.ORD_UNIX):
+            # finding F1 of C01 (last 606 days); 0 on a stdin line is taken for no stamp
+            ctx.skip("epoch-last606")
             continue
         if K == "bizda" and not (dur.is_bday(o) and dur.is_bday(t)):
             ctx.skip("bizda-weekend-endpoint")
@@ -62,10 +66,11 @@ def main(tier, seed):
     # the same additions with the result printed in ANOTHER calendar
     cross = []
     XO = {"ymd": ["ywd", "yd", "ymcw"], "ywd": ["ymd", "yd"], "yd": ["ymd", "ywd"], "ymcw": ["ymd", "ywd"],
-          "bizda": ["ymd"], "ldn": ["ymd", "ywd"], "mdn": ["ymd"]}
+          "bizda": ["ymd"], "ldn": ["ymd", "ywd"], "mdn": ["ymd"], "epoch": [None]}
     for i, t in enumerate(tasks):
         outs = XO[t[2]]
-        cross.append(t + (outs[i % len(outs)],))
+        if outs[i % len(outs)] is not None:
+            cross.append(t + (outs[i % len(outs)],))
     tasks += cross
     tasks = [t for t in tasks if t[4]]
     tasks.sort(key=lambda t: -len(t[4]))
